@@ -17,6 +17,7 @@ import (
 // C20 (Bigtable half) — no request or request mix can crash or wedge the service.
 
 type C20Probe struct {
+	FailSend int `json:"failsend,omitempty"` // >0: a multi-message ReadRows whose client goes away at this Send
 	Op  *bt.Op `json:"op,omitempty"`  // structure-level perturbation
 	RPC string `json:"rpc,omitempty"` // byte-level: rpc + payload
 	Raw bt.BS  `json:"raw,omitempty"`
@@ -37,6 +38,9 @@ func genC20BT() *rapid.Generator[C20BTCase] {
 			FilterOpts: bt.FilterOpts{Fams: bt.AllFams, Keys: c14Keys, Quals: c14Quals, Vals: c05Vals, InvalidPct: 10, Sample: true}}
 		c.Setup = append([]bt.Op{{K: "CreateTable", Table: "t", Fams: []bt.FamDef{{Name: "f"}, {Name: "g"}}}}, rapid.SliceOfN(bt.GenOp(ctx), 0, 8).Draw(t, "setup")...)
 		probe := rapid.Custom(func(t *rapid.T) C20Probe {
+			if rapid.IntRange(0, 14).Draw(t, "failsend") == 0 {
+				return C20Probe{FailSend: rapid.IntRange(1, 3).Draw(t, "at")}
+			}
 			if rapid.Bool().Draw(t, "structural") {
 				op := bt.GenHostileOp(c20Tables).Draw(t, "hostile")
 				return C20Probe{Op: &op}
@@ -124,6 +128,8 @@ func withWatchdog(d time.Duration, f func() *bt.Result) (*bt.Result, bool) {
 }
 
 func runC20BT(c C20BTCase, ev *vt.Ev) *vt.Failure {
+	vt.WriteCurrent("TestC20BT", "C20", c) // a fatal runtime error cannot be recovered: keep the running case on disk
+	defer vt.ClearCurrent("TestC20BT")
 	s, err := bt.NewSrv(c.Engine, "")
 	if err != nil {
 		return vt.Failf("C20", "server start: %v", err)
@@ -139,11 +145,33 @@ func runC20BT(c C20BTCase, ev *vt.Ev) *vt.Failure {
 	}
 	labels := map[string]bool{"engine=" + c.Engine: true}
 	reached := 0
+	bigLoaded := false
 	for i, p := range c.Probes {
 		var res *bt.Result
 		var returned bool
 		what := ""
-		if p.Op != nil {
+		if p.FailSend > 0 {
+			if !bigLoaded {
+				bigLoaded = true
+				s.Exec(&bt.Op{K: "CreateTable", Table: "big", Fams: []bt.FamDef{{Name: "f"}}})
+				var entries []bt.Entry
+				for r := 0; r < 3500; r++ {
+					entries = append(entries, bt.Entry{Key: bt.BS(fmt.Sprintf("r%05d", r)), Muts: []bt.Mut{{K: "set", Fam: "f", Qual: "q", TS: 1000, Val: "x"}}})
+				}
+				s.Exec(&bt.Op{K: "MutateRows", Table: "big", Entries: entries})
+			}
+			what = fmt.Sprintf("ReadRows whose client disconnects at message %d", p.FailSend)
+			at := p.FailSend
+			res, returned = withWatchdog(20*time.Second, func() *bt.Result {
+				return s.ExecCtx(context.Background(), &bt.Op{K: "ReadRows", Table: "big"}, func(n int) error {
+					if n >= at {
+						return fmt.Errorf("rpc error: code = Canceled desc = client went away")
+					}
+					return nil
+				})
+			})
+			labels["client-disconnect-during-scan"] = true
+		} else if p.Op != nil {
 			what = "structural " + p.Op.K
 			res, returned = withWatchdog(20*time.Second, func() *bt.Result { return s.Exec(p.Op) })
 			labels["structural:"+p.Op.K] = true
@@ -188,7 +216,7 @@ func runC20BT(c C20BTCase, ev *vt.Ev) *vt.Failure {
 
 func TestC20BT(t *testing.T) {
 	vt.Prop[C20BTCase]{ID: "C20", Test: "TestC20BT",
-		Rule: "Bigtable: after a drawn valid setup program, 1-12 probes per case on 3 engines: structure-level perturbations of every implemented RPC (unset oneofs / sub-messages, MinInt/MaxInt/negative numbers, empty and 64 KiB names and keys, missing tables, duplicated entries, 0 or 200 sub-filters, NaN/Inf sample probability, 10^4 ranges, catastrophic regexes) and byte-level mutations (flip, insert, delete, truncate, splice) of marshalled valid/hostile requests, sent to the right or a wrong RPC (only bytes that proto.Unmarshal accepts reach a handler, as with gRPC); oracle: no panic, a gRPC status, the call returns within 20s, and afterwards the canary table reads back identical, ListTables shows it and a fresh write+read works; non-trivial = at least one perturbed request reached a handler",
+		Rule: "Bigtable: after a drawn valid setup program, 1-12 probes per case on 3 engines: ReadRows whose client disconnects in the middle of a multi-message stream, structure-level perturbations of every implemented RPC (unset oneofs / sub-messages, MinInt/MaxInt/negative numbers, empty and 64 KiB names and keys, missing tables, duplicated entries, 0 or 200 sub-filters, NaN/Inf sample probability, 10^4 ranges, catastrophic regexes) and byte-level mutations (flip, insert, delete, truncate, splice) of marshalled valid/hostile requests, sent to the right or a wrong RPC (only bytes that proto.Unmarshal accepts reach a handler, as with gRPC); oracle: no panic, a gRPC status, the call returns within 20s, and afterwards the canary table reads back identical, ListTables shows it and a fresh write+read works; non-trivial = at least one perturbed request reached a handler",
 		Gen:  genC20BT(), Run: runC20BT}.Main(t)
 }
 
